@@ -680,7 +680,7 @@ func allLines(n int, line func(int) string) []string {
 }
 
 func genWs(t *rapid.T) WsCase {
-	c := WsCase{Before: pbt.Range(t, 0, 30), After: pbt.Range(t, 0, 120), Tail: pbt.Pick(t, []int{0, 1, 5, 100}),
+	c := WsCase{Before: pbt.Pick(t, []int{0, 3, 30, 30, 300, 600}), After: pbt.Range(t, 0, 120), Tail: pbt.Pick(t, []int{0, 1, 5, 100, 257, 1000}),
 		Second: pbt.Pick(t, []string{"none", "reads", "disconnects", "leaves", "leaves"}), LineSize: pbt.Pick(t, []int{1, 100, 4000})}
 	if (c.Second == "leaves" || c.Second == "disconnects") && pbt.Pct(t, 40) {
 		c.SlowUnsubMs = pbt.Pick(t, []int{5, 40})
